@@ -229,7 +229,18 @@ func (cmd UndeleteBlobCommand) apply(txn *state.Txn) UndeleteBlobResult {
 
 // Finalizes the deletion of a blob, deleting it permanently.
 func (cmd FinishDeleteCommand) apply(txn *state.Txn) core.Error {
-	return txn.FinishDeleteBlobs(cmd.Blobs)
+	if cmd.Cutoff == 0 {
+		return txn.FinishDeleteBlobs(cmd.Blobs)
+	}
+	// The list was computed from a scan of an earlier state. Only remove the
+	// blobs that are still deleted or expired with respect to the scan's cutoff.
+	blobs := make([]core.BlobID, 0, len(cmd.Blobs))
+	for _, id := range cmd.Blobs {
+		if blob := txn.GetBlobAll(id); blob != nil && state.CanFinishDelete(blob, cmd.Cutoff) {
+			blobs = append(blobs, id)
+		}
+	}
+	return txn.FinishDeleteBlobs(blobs)
 }
 
 // Changes metadata for a blob.
